@@ -278,6 +278,30 @@ def set_to_seq(ex, sset, st):
     return SSeq(m, lambda q: r(num_term(q)), 'int')
 
 
+def np_searchsorted(ex, args, kw, st):
+    """np.searchsorted(a, v) (side='left') for a scalar v: the first index i with a[i] >= v.  The
+    result is specified for a sorted a; that a is sorted (non-decreasing) is an obligation."""
+    if kw.get('side', 'left') != 'left' or set(kw) - {'side'}:
+        raise Unsupported('searchsorted options')
+    a, v = args[:2]
+    if isinstance(a, SArr) and a.ndim == 1:
+        f = snap(a)
+        a = SSeq(a.shape[0], lambda i, f=f: f((i,)), a.kind)
+    if not isinstance(a, SSeq) or not is_num(v):
+        raise Unsupported('searchsorted of these values')
+    uid = next(_bv)
+    n = num_term(a.length)
+    k, k2 = z3.Int(f'bv!ss{uid}k'), z3.Int(f'bv!ss{uid}m')
+    st.check('searchsorted: the array is sorted',
+             z3.ForAll([k, k2], z3.Implies(z3.And(k >= 0, k <= k2, k2 < n),
+                                           num_term(a.fn(k)) <= num_term(a.fn(k2)))))
+    i = fresh_int(f'ss{uid}')
+    st.fact(z3.And(i >= 0, i <= n))
+    st.fact(z3.ForAll([k], z3.Implies(z3.And(k >= 0, k < i), num_term(a.fn(k)) < num_term(v))))
+    st.fact(z3.ForAll([k], z3.Implies(z3.And(k >= i, k < n), num_term(a.fn(k)) >= num_term(v))))
+    return i
+
+
 def np_isscalar(ex, args, kw, st):
     v = args[0]
     if is_num(v) or isinstance(v, (bool, int, float, str, SStr)):
@@ -1165,7 +1189,7 @@ TABLE = {
     'int': p_int, 'float': p_float, 'bool': p_bool, 'abs': p_abs, 'np.abs': p_abs,
     'np.fabs': p_abs, 'fabs': p_abs, 'math.fabs': p_abs,
     'min': p_min, 'max': p_max, 'len': p_len, 'isinstance': p_isinstance, 'slice': p_slice,
-    'tuple': p_tuple, 'list': p_list, 'set': p_set, 'sorted': p_sorted, 'np.insert': np_insert, 'np.isscalar': np_isscalar, 'zip': p_zip, 'range': p_range, 'enumerate': p_enumerate,
+    'tuple': p_tuple, 'list': p_list, 'set': p_set, 'sorted': p_sorted, 'np.insert': np_insert, 'np.isscalar': np_isscalar, 'np.searchsorted': np_searchsorted, 'zip': p_zip, 'range': p_range, 'enumerate': p_enumerate,
     'sum': p_sum, 'all': p_all_py, 'any': p_any_py, 'round': p_round_unsupported,
     'math.sqrt': p_sqrt, 'np.sqrt': p_sqrt, 'sqrt': p_sqrt,
     'math.sin': p_sin, 'np.sin': p_sin, 'sin': p_sin,
